@@ -117,7 +117,7 @@ struct World {
          if (!regions[p].as_impl) { trace += "(n/a) "; return; }
          auto* r = regions[p].as_impl->make_subregion(); add(*r, p, nullptr, c, r); break; }
       case CLASS: {
-         auto* k = lex.make_class(parent); int ri = add(k->region(), p, k, c, &k->body); types.push_back(k); types.push_back(&lex.get_reference(*k));
+         auto* k = lex.make_class(parent); if (rng.chance(70)) k->id = rng.pick(ids); int ri = add(k->region(), p, k, c, &k->body); types.push_back(k); types.push_back(&lex.get_reference(*k));
          classes.push_back({ k, {}, -1 });
          // the base-subobject region is created with the class, enclosed by the class's enclosing region and owned by the class
          (void)ri; break; }
@@ -168,19 +168,31 @@ struct World {
       }
    }
 
+   // a question asked of a list between two additions: one member that is not the first is looked up by its name in its home region
+   // and another one is read by position; asking changes nothing (the later checks judge positions and order)
+   template<class Members> void ask_between_additions(const Members& members)
+   {
+      if (members.size() < 2) return;
+      auto* m = members[1 + rng.below(members.size() - 1)];
+      try { auto& sc = m->home_region().bindings(); (void)sc[m->name()].is_valid(); (void)&*sc.elements().position(rng.below(sc.size() - 1)); ctx().count("lookups_between_member_additions"); }
+      catch (const std::logic_error&) { }
+   }
+
    void grow_members()
    {
       // a few members into random lists
       if (!plists.empty()) {
          auto& pl = rng.pick(plists);
          int k = 1 + int(rng.below(4));
-         for (int i = 0; i < k; ++i) pl.members.push_back(pl.impl_list->add_member(*rng.pick(ids), *rng.pick(types)));
+         for (int i = 0; i < k; ++i) { if (rng.chance(60)) ask_between_additions(pl.members); pl.members.push_back(pl.impl_list->add_member(*rng.pick(ids), *rng.pick(types))); }
+         if (rng.chance(50)) ask_between_additions(pl.members);
          trace += "params+" + std::to_string(k) + " ";
       }
-      if (!enums.empty()) { auto& e = rng.pick(enums); int k = 1 + int(rng.below(4)); for (int i = 0; i < k; ++i) e.members.push_back(e.e->add_member(*rng.pick(ids))); trace += "enumerators+" + std::to_string(k) + " "; }
+      if (!enums.empty()) { auto& e = rng.pick(enums); int k = 1 + int(rng.below(4)); for (int i = 0; i < k; ++i) { if (rng.chance(60)) ask_between_additions(e.members); e.members.push_back(e.e->add_member(*rng.pick(ids))); } if (rng.chance(50)) ask_between_additions(e.members); trace += "enumerators+" + std::to_string(k) + " "; }
       if (!classes.empty()) {
          auto& c = rng.pick(classes); int k = 1 + int(rng.below(3));
-         for (int i = 0; i < k; ++i) c.members.push_back(c.c->declare_base(*classes[rng.below(classes.size())].c));
+         for (int i = 0; i < k; ++i) { if (rng.chance(60)) ask_between_additions(c.members); c.members.push_back(c.c->declare_base(*classes[rng.below(classes.size())].c)); }
+         if (rng.chance(50)) ask_between_additions(c.members);
          trace += "bases+" + std::to_string(k) + " ";
       }
    }
@@ -442,7 +454,7 @@ static void body(Ctx& C)
    C.assume("the property prescribes no owner for plain sub-regions, where-regions, requires-parameter regions, declarator morphisms (unless the client sets one) and the handler's exception region; those are required to report none / are left unconstrained respectively");
    for (auto k : { "created:subregion", "created:class", "created:union", "created:enum", "created:namespace", "created:closure", "created:block", "created:handler",
                    "created:mapping", "created:lambda", "created:requires", "created:function-morphism", "created:where", "created:global", "handler_region_checks",
-                   "members_checked:parameter", "members_checked:enumerator", "members_checked:base", "outward_walks", "units_checked", "chains" }) C.need(k);
+                   "members_checked:parameter", "members_checked:enumerator", "members_checked:base", "outward_walks", "lookups_between_member_additions", "units_checked", "chains" }) C.need(k);
    Rng seeds(C.seed);
    const int shorts = C.thorough ? 3000 : 60, longs = C.thorough ? 40 : 2;
    for (int i = 0; i < shorts; ++i) random_program(seeds.next(), 10 + int(seeds.below(70)), C.thorough ? 60 : 12, true);
